@@ -514,7 +514,7 @@ func cmdReplay(args []string) int {
 func cmdSelftest(args []string) int {
 	fs := flag.NewFlagSet("selftest", flag.ExitOnError)
 	seeds := fs.Int("seeds", 40, "")
-	props := fs.String("props", "C01,C02,C05,C06,C07,C08,C09,C10,C11,C13,C14,C17", "")
+	props := fs.String("props", "C01,C02,C03,C04,C05,C06,C07,C08,C09,C10,C11,C12,C13,C14,C17", "")
 	child := fs.Bool("child", false, "")
 	fs.Parse(args)
 	if *child {
